@@ -16,7 +16,12 @@
      C16-repush-done.diff : pop()'s kill handler re-queues a handed-over job only when it
                             is not done (otherwise pushjob overwrites id2job[jobid] of a
                             re-added job with the dead object);
-     C17-counters.diff    : _mark_finished counts a falsy error ("" ) as success. *)
+     C17-counters.diff    : _mark_finished counts a falsy error ("" ) as success.
+   (both are in /repo since 558c82c / f2b0ce6.)
+
+   Outside the properties' alphabets but modelled (needed to reach "the newest job is gone at save
+   time", C18): Drop = dropjobs (+ the deletion in waitjobs), Watchdog = dropdead, Advance = the
+   clock moving without the handletimeouts sweep. *)
 From Coq Require Import List NArith Bool.
 Import ListNotations.
 Open Scope N_scope.
@@ -43,7 +48,9 @@ Definition err_is_killed (e : err) : bool := match e with EStr 2 => true | _ => 
 Record job := mkJob {
   j_serial : N; j_id : jid; j_chan : N; j_prio : N;
   j_timeout : N;                      (* absolute deadline: time.time() + timeout, jobs.py:36 *)
-  j_done : bool; j_err : err; j_res : option N; j_info : option N; j_ttl : N }.
+  j_done : bool; j_err : err; j_res : option N; j_info : option N; j_ttl : N;
+  j_dl : option N;                    (* job.deadline: None until dropdead() stamps a finished job, jobs.py:183-185 *)
+  j_drop : bool }.                    (* job.drop, set by dropjobs(), jobs.py:163-169 *)
 
 Inductive cstate :=
 | Idle                                           (* handler waits for the next request *)
@@ -231,17 +238,17 @@ Definition mark_finished (ser : N) (upd : job -> job) (s : state) : state :=
     else
       let j' := upd j in
       let fin := mkJob (j_serial j) (j_id j) (j_chan j) (j_prio j) (j_timeout j) true
-                       (j_err j') (j_res j') (j_info j) (j_ttl j') in
+                       (j_err j') (j_res j') (j_info j) (j_ttl j') (j_dl j) (j_drop j) in
       let s1 := set_jobs (setjob ser (fun _ => fin) (s_jobs s)) s in
       let s2 := set_hub (if has_waiter ser (s_conns s1) then s_hub s1 ++ [EvDone ser] else s_hub s1) s1 in   (* finish_event.set() *)
       set_cnt (cnt_set (s_cnt s2) (j_chan j) (bump (j_err fin) (cnt_get (s_cnt s2) (j_chan j)))) s2
   end.
 
 Definition upd_err (e : err) (j : job) : job :=
-  mkJob (j_serial j) (j_id j) (j_chan j) (j_prio j) (j_timeout j) (j_done j) e (j_res j) (j_info j) (j_ttl j).
+  mkJob (j_serial j) (j_id j) (j_chan j) (j_prio j) (j_timeout j) (j_done j) e (j_res j) (j_info j) (j_ttl j) (j_dl j) (j_drop j).
 
 Definition upd_finish (res : option N) (e : err) (ttl : N) (j : job) : job :=
-  mkJob (j_serial j) (j_id j) (j_chan j) (j_prio j) (j_timeout j) (j_done j) e res (j_info j) ttl.
+  mkJob (j_serial j) (j_id j) (j_chan j) (j_prio j) (j_timeout j) (j_done j) e res (j_info j) ttl (j_dl j) (j_drop j).
 
 (* handletimeouts loop, jobs.py:139-151, over the sorted view of the heap *)
 Fixpoint timeouts_loop (q : list tkey) (s : state) : state :=
@@ -316,7 +323,7 @@ Definition push (ch prio : N) (name : option N) (tmo : option N) (s : state) : s
     let ser := s_count s + 1 in
     let i := match name with Some n => JName n | None => JAuto ser end in
     let t := match tmo with Some t => t | None => 120 end in
-    let j := mkJob ser i ch prio (s_now s + t) false ENone None None 3600 in
+    let j := mkJob ser i ch prio (s_now s + t) false ENone None None 3600 None false in
     (pushjob ser (set_jobs (j :: s_jobs s) (set_count ser s)), i) in
   match name with
   | None => fresh
@@ -407,6 +414,12 @@ Fixpoint release (ser : N) (js : list job) (cs : list conn) : list conn * list o
     end
   end.
 
+Definition drop_outs (present : bool) (o : list out) : list out :=
+  match o with
+  | [] => []
+  | x :: r => (if present then x else OKeyErr) :: map (fun _ => OKeyErr) r
+  end.
+
 Definition run_event (e : event) (s : state) : state * list out :=
   match e with
   | EvNotify c =>
@@ -430,8 +443,18 @@ Definition run_event (e : event) (s : state) : state * list out :=
       die c s2
     end
   | EvDone ser =>
+    (* waitjobs, jobs.py:228-231: each released client runs `if j.drop: del self.id2job[j.jobid]`; the
+       first one deletes whatever is registered under that id NOW, the following ones (or all, when the
+       id is already gone) fail with KeyError = an error response instead of the job *)
     let (cs, o) := release ser (s_jobs s) (s_conns s) in
-    (set_conns cs s, o)
+    match getjob (s_jobs s) ser with
+    | Some j =>
+      if j_drop j && has_waiter ser (s_conns s) then
+        (set_ids (id_del (s_ids s) (j_id j)) (set_conns cs s),
+         drop_outs (match id_lookup (s_ids s) (j_id j) with Some _ => true | None => false end) o)
+      else (set_conns cs s, o)
+    | None => (set_conns cs s, o)
+    end
   end.
 
 Fixpoint run_events (es : list event) (s : state) : state * list out :=
@@ -455,6 +478,50 @@ Definition is_idle (c : N) (s : state) : bool :=
 Definition count_undone (js : list job) (q : list qkey) : N :=
   N.of_nat (length (filter (fun x => negb (is_done js (snd x))) q)).
 
+(* dropjobs, jobs.py:163-169 *)
+Definition set_drop (j : job) : job :=
+  mkJob (j_serial j) (j_id j) (j_chan j) (j_prio j) (j_timeout j) (j_done j) (j_err j) (j_res j) (j_info j) (j_ttl j) (j_dl j) true.
+
+Fixpoint dropjobs (js : list jid) (s : state) : state :=
+  match js with
+  | [] => s
+  | i :: r =>
+    match id_lookup (s_ids s) i with
+    | None => dropjobs r s
+    | Some ser => dropjobs r (set_jobs (setjob ser set_drop (s_jobs s)) s)
+    end
+  end.
+
+(* dropdead, jobs.py:171-189, over the snapshot list(self.id2job.items()); now = int(time.time()) and the
+   virtual clock is integral.  `job.deadline` is truthy when it is a non-zero number. *)
+Definition dl_truthy (d : option N) : bool := match d with Some n => negb (n =? 0) | None => false end.
+
+Definition set_dl (d : option N) (j : job) : job :=
+  mkJob (j_serial j) (j_id j) (j_chan j) (j_prio j) (j_timeout j) (j_done j) (j_err j) (j_res j) (j_info j) (j_ttl j) d (j_drop j).
+
+(* the loop variable `job` of a snapshot entry (jid, job) is what id2job[jid] holds during the whole loop
+   (the loop only deletes the entry it is looking at), so the model looks the id up in the current table *)
+Fixpoint dropdead_loop (l : list jid) (s : state) : state :=
+  match l with
+  | [] => s
+  | i :: r =>
+    match id_lookup (s_ids s) i with
+    | None => dropdead_loop r s
+    | Some ser =>
+      match getjob (s_jobs s) ser with
+      | None => dropdead_loop r s
+      | Some j =>
+        let expired := match j_dl j with Some d => negb (d =? 0) && (d <? s_now s) | None => false end in
+        let s1 := if expired then set_ids (id_del (s_ids s) i) s else s in
+        let s2 := if j_done j && negb (dl_truthy (j_dl j))
+                  then set_jobs (setjob ser (set_dl (Some (s_now s + j_ttl j))) (s_jobs s1)) s1 else s1 in
+        dropdead_loop r s2
+      end
+    end
+  end.
+
+Definition dropdead (s : state) : state := dropdead_loop (map fst (s_ids s)) s.
+
 Inductive op :=
 | Add (ch prio : N) (name : option N) (tmo : option N)
 | StartPull (c : N) (chs : list N)
@@ -467,7 +534,10 @@ Inductive op :=
 | Wait (c : N) (i : jid)
 | Info (i : jid)
 | SetInfo (i : jid) (v : N)
-| Stats.
+| Stats
+| Advance (dt : N)               (* the clock moves on, the 1-second handletimeouts sweep has not run yet *)
+| Drop (js : list jid)           (* rpc_qdrop -> dropjobs *)
+| Watchdog.                      (* Main.watchdog -> dropdead *)
 
 Definition N_min (a b : N) : N := if a <? b then a else b.
 
@@ -510,7 +580,8 @@ Definition step (s : state) (o : op) : state * list out :=
         match getjob (s_jobs s) ser with
         | None => (s, [OKeyErr])
         | Some j =>
-          if j_done j && negb (done_pending ser (s_hub s)) then (s, [OReleased c j])
+          if j_done j && negb (done_pending ser (s_hub s)) then
+            ((if j_drop j then set_ids (id_del (s_ids s) i) s else s), [OReleased c j])      (* jobs.py:229-230 *)
           else
             let cn := get_conn (s_conns s) c in
             (set_conns (put_conn (s_conns s) (mkConn c (BWait ser) (c_run cn))) s, [OBlocked])
@@ -524,11 +595,14 @@ Definition step (s : state) (o : op) : state * list out :=
     | None => (s, [OKeyErr])
     | Some ser =>
       (set_jobs (setjob ser (fun j => mkJob (j_serial j) (j_id j) (j_chan j) (j_prio j) (j_timeout j) (j_done j)
-                                          (j_err j) (j_res j) (Some v) (j_ttl j)) (s_jobs s)) s, [OUnit])
+                                          (j_err j) (j_res j) (Some v) (j_ttl j) (j_dl j) (j_drop j)) (s_jobs s)) s, [OUnit])
     end
   | Stats =>
     (s, [OStats (s_count s) (N.of_nat (length (s_ids s))) (s_cnt s)
                 (map (fun kq => (fst kq, count_undone (s_jobs s) (snd kq))) (s_queues s))])
+  | Advance dt => (set_now (s_now s + dt) s, [OUnit])
+  | Drop js => (dropjobs js s, [OUnit])
+  | Watchdog => (dropdead s, [OUnit])
   end.
 
 Definition run (h : list op) (s : state) : state := fold_left (fun s o => fst (step s o)) h s.
